@@ -101,6 +101,28 @@ def prefix_label_default(v: List[int]) -> bool:
         return _agree(sp, ec, q, bool(pref), f"{core}{ch}")
 
 
+def isomer_labels_with_inner_dash(v: List[int]) -> bool:
+    """
+    pre: len(v) == 3 and all(0 <= x < 12 for x in v)
+    post: _ == True
+    """
+    # 'c-' / 'l-' are default pseudo-elements: their '-' is part of the label, never a charge
+    a, b, c = prelude.concrete(v)
+    with prelude.NoTracing():
+        _setup()
+        pref, use_g = [("", False), ("#", False), ("G", True)][a % 3]
+        lab = ["c-", "l-"][(a // 3) % 2]
+        s1, c1 = ["C", "Si", "H", "N", "O", "S"][b % 6], COUNTS[c % 4]
+        s2 = ["", "H", "H2", "N"][(b // 6 + 2 * (a // 6)) % 4]
+        ch = CHARGES[(c // 4) * 2 + (a // 6) % 2]
+        core = f"{lab}{s1}{c1}{s2}"
+        name = f"{pref}{core}{ch}"
+        p2 = (s2[:1], s2[1:]) if s2 else ("", "")
+        ec, q = _expected([(s1, c1), p2], ch)
+        sp = Species(name, surface_prefix="G") if use_g else Species(name)
+        return _agree(sp, ec, q, bool(pref), f"{core}{ch}")
+
+
 def triples_clash(v: List[int]) -> bool:
     """
     pre: len(v) == 3 and all(0 <= x < 14 for x in v)
